@@ -104,6 +104,38 @@ pub fn exec_op(ctx: &mut ArrCtx, st: &mut C06State, verb: &str, m: &BTreeMap<Str
                 _ => "untyped".to_string(),
             }
         }
+        // ndarray / typed element forms of the sharded extension: same elements AND the shape of the region they stand for
+        "nd_inner_chunk" | "nd_inner_chunks" | "nd_sharded_subset" => {
+            let sc = st.shard_cache.as_ref().unwrap();
+            let ish = m.get("ishape").map(|s| pnl(s)).unwrap_or_default();
+            let want: Vec<u64> = match verb {
+                "nd_inner_chunk" => ish.clone(),
+                "nd_inner_chunks" => parse_subset(&m["ibox"]).shape().iter().zip(&ish).map(|(a, b)| a * b).collect(),
+                _ => parse_subset(&m["r"]).shape().to_vec(),
+            };
+            macro_rules! nd { ($t:ty, $conv:expr) => {{
+                let r = match verb {
+                    "nd_inner_chunk" => a.retrieve_inner_chunk_ndarray_opt::<$t>(sc, &pnl(&m["ic"]), &o),
+                    "nd_inner_chunks" => a.retrieve_inner_chunks_ndarray_opt::<$t>(sc, &parse_subset(&m["ibox"]), &o),
+                    _ => a.retrieve_array_subset_ndarray_sharded_opt::<$t>(sc, &parse_subset(&m["r"]), &o),
+                };
+                match r {
+                    Ok(arr) => { let shape_ok = arr.shape().iter().map(|&x| x as u64).collect::<Vec<_>>() == want;
+                        let xs: Vec<Vec<u8>> = arr.iter().cloned().map($conv).collect(); format!("val {}{}", show_elems(&xs), if shape_ok { "" } else { " badshape" }) }
+                    Err(_) => "err".to_string() } }}; }
+            match dtype {
+                "uint8" => nd!(u8, |x: u8| vec![x]),
+                "int32" => nd!(i32, |x: i32| x.to_ne_bytes().to_vec()),
+                "uint16" => nd!(u16, |x: u16| x.to_ne_bytes().to_vec()),
+                "float64" => nd!(f64, |x: f64| x.to_ne_bytes().to_vec()),
+                "uint64" => nd!(u64, |x: u64| x.to_ne_bytes().to_vec()),
+                "string" => nd!(String, |x: String| x.into_bytes()),
+                _ => "untyped".to_string(),
+            }
+        }
+        "typed_inner_chunk" => { let sc = st.shard_cache.as_ref().unwrap(); typed_read!(a, dtype, es, retrieve_inner_chunk_elements_opt, sc, &pnl(&m["ic"]), &o) }
+        "typed_inner_chunks" => { let sc = st.shard_cache.as_ref().unwrap(); typed_read!(a, dtype, es, retrieve_inner_chunks_elements_opt, sc, &parse_subset(&m["ibox"]), &o) }
+        "typed_sharded_subset" => { let sc = st.shard_cache.as_ref().unwrap(); typed_read!(a, dtype, es, retrieve_array_subset_elements_sharded_opt, sc, &parse_subset(&m["r"]), &o) }
         "cached_chunk" => { let c = &st.caches[&m["cid"]]; with_cache!(c, x, match a.retrieve_chunk_opt_cached(x, &pnl(&m["c"]), &o) { Ok(b) => format!("val {}", show_elems(&from_array_bytes(es, (*b).clone()))), Err(_) => "err".into() }) }
         "cached_chunks" => { let c = &st.caches[&m["cid"]]; with_cache!(c, x, val(es, a.retrieve_chunks_opt_cached(x, &parse_subset(&m["box"]), &o))) }
         "cached_chunk_subset" => { let c = &st.caches[&m["cid"]]; with_cache!(c, x, val(es, a.retrieve_chunk_subset_opt_cached(x, &pnl(&m["c"]), &parse_subset(&m["r"]), &o))) }
@@ -198,15 +230,16 @@ pub fn generate(tier: &str, seed: u64) -> Vec<String> {
                     match &cfg.eff_inner {
                         Some(e) if cfg.sharded => {
                             let igs: Vec<u64> = cfg.shape.iter().zip(e).map(|(&a, &c)| (a + c - 1) / c).collect();
+                            let form = *rng.pick(&["", "", "nd_", "typed_"]);
                             if rng.chance(1, 2) {
                                 let ic: Vec<u64> = igs.iter().map(|&g| rng.below(g.max(1))).collect();
-                                format!("c06 op inner_chunk ic={} ishape={}", nl(&ic), nl(e))
+                                format!("c06 op {}inner_chunk ic={} ishape={}", form, nl(&ic), nl(e))
                             } else {
                                 let (is, inn) = rand_region(&mut rng, &igs);
-                                format!("c06 op inner_chunks ibox={}+{} ishape={}", nl(&is), nl(&inn), nl(e))
+                                format!("c06 op {}inner_chunks ibox={}+{} ishape={}", form, nl(&is), nl(&inn), nl(e))
                             }
                         }
-                        _ => format!("c06 op sharded_subset r={}+{}", nl(&rs), nl(&rn)),
+                        _ => format!("c06 op {}sharded_subset r={}+{}", *rng.pick(&["", "", "nd_", "typed_"]), nl(&rs), nl(&rn)),
                     }
                 }
             };
